@@ -287,7 +287,7 @@ def record2(rng, body=None, padding=None, length=None, first=None):
 def corr_recordsocket(ctx, P):
     from tlslite.recordlayer import RecordSocket
     rng = ctx.rng
-    n_rand = ctx.pick(500, 6000)
+    n_rand = ctx.pick(1500, 8000)
 
     def run_case(kind, stream, rs, buffered, ops, lim=None, t13=False):
         """ops: list of ('recvall', n) | ('recvhdr',) | ('recordrecv',)"""
@@ -418,7 +418,7 @@ def corr_send(ctx, P):
     from tlslite.recordlayer import RecordSocket
     from tlslite.messages import Message
     rng = ctx.rng
-    for _ in range(ctx.pick(400, 4000)):
+    for _ in range(ctx.pick(1000, 6000)):
         buffered = rng.random() < 0.5
         ops = []
         for _ in range(rng.randrange(1, 5)):
@@ -483,7 +483,7 @@ def corr_send(ctx, P):
 def corr_bufferedsocket(ctx, P):
     from tlslite.bufferedsocket import BufferedSocket
     rng = ctx.rng
-    for _ in range(ctx.pick(300, 3000)):
+    for _ in range(ctx.pick(800, 5000)):
         stream = rb(rng, rng.choice([0, 3, 10, 50, 5000]))
         rs = rand_rsched(rng, len(stream))
         if len(stream) > 100:
@@ -495,6 +495,7 @@ def corr_bufferedsocket(ctx, P):
                 "rsched": sched_str(rs, "c"), "ssched": sched_str(ss, "a"), "ops": []}
         P.add("sock %s %s %s 1" % (hx(stream), sched_str(rs, "c"), sched_str(ss, "a")))
         got = bytearray()
+        spec_sent, spec_queue, spec_buf = bytearray(), [], False      # plain reading of the class contract
         for _ in range(rng.randrange(1, 12)):
             if raw.exhausted:
                 break
@@ -516,6 +517,10 @@ def corr_bufferedsocket(ctx, P):
                 try:
                     k = bs.send(bytearray(d))
                     impl = "sent:%d" % k
+                    if spec_buf:
+                        spec_queue.append(d)
+                    else:
+                        spec_sent += d[:k]
                 except socket.error as e:
                     impl = "exhausted" if raw.exhausted else ("wouldblock" if e.args[0] in WB else "error")
                 P.add("bsend %s" % hx(d), "bufferedsocket:send", dict(case), impl)
@@ -524,17 +529,29 @@ def corr_bufferedsocket(ctx, P):
                 case["ops"].append(["bsendall", d.hex()])
                 bs.sendall(bytearray(d))
                 P.add("bsendall %s" % hx(d))
+                if spec_buf:
+                    spec_queue.append(d)
+                else:
+                    spec_sent += d
             elif c < 0.9:
                 v = rng.random() < 0.6
                 case["ops"].append(["bufw", v])
                 bs.buffer_writes = v
+                spec_buf = v
                 P.add("bufw %d" % (1 if v else 0))
             else:
                 case["ops"].append(["bflush"])
                 bs.flush()
+                spec_sent += b"".join(spec_queue)
+                spec_queue = []
                 P.add("bflush")
         q = ",".join(hx(bytes(x)) for x in bs._write_queue)
         P.add("sent", "bufferedsocket:final", dict(case), "sent=%s queue=%s" % (hx(raw.sent), q))
+        if bytes(raw.sent) != bytes(spec_sent) or [bytes(x) for x in bs._write_queue] != spec_queue:
+            ctx.violation("c14:bufferedsocket-write-order",
+                          "BufferedSocket handed the socket %s (queue %s); the writes were %s (held: %s)"
+                          % (bytes(raw.sent).hex(), q, bytes(spec_sent).hex(), ",".join(x.hex() for x in spec_queue)),
+                          dict(case, stage="a:bufferedsocket", sent=bytes(raw.sent).hex(), want=bytes(spec_sent).hex()))
         # direct oracle: what came out above ++ what is still below/buffered == the stream
         if bytes(got) + upstream(raw, bs) != stream:
             ctx.violation("c14:bufferedsocket-read-stream", "BufferedSocket.recv lost, duplicated or reordered bytes",
@@ -578,7 +595,7 @@ def corr_defragmenter(ctx, P):
         return ",".join("%d=%s" % (k, hx(bytes(v))) for k, v in d.buffers.items())
 
     # random configurations and op sequences
-    for _ in range(ctx.pick(300, 3000)):
+    for _ in range(ctx.pick(600, 4000)):
         d = Defragmenter()
         P.add("dnew")
         case = {"stage": "a:defragmenter", "ops": []}
@@ -637,7 +654,7 @@ def corr_getnextrecord(ctx, P):
     RecordSocket -> RecordLayer -> _getNextRecordFromSocket -> Defragmenter, under a schedule"""
     from tlslite.tlsconnection import TLSConnection
     rng = ctx.rng
-    for it in range(ctx.pick(400, 4000)):
+    for it in range(ctx.pick(1000, 6000)):
         tls13 = rng.random() < 0.3
         # message streams per content type, cut into records, interleaved at record granularity
         hs = b"".join(hs_msg(rng) for _ in range(rng.randrange(0, 5)))
@@ -703,21 +720,31 @@ def corr_getnextrecord(ctx, P):
               "getnextrecord", case, impl)
         ctx.count("a:getnextrecord:" + exc)
         ctx.case(key=("gnr", stream, tuple(rs), tls13), sample=case if it == 3 else None)
-        # direct oracle (independent of the model): handshake messages delivered == the messages of the stream
+        # direct oracle (independent of the model): per content type, the messages delivered are the
+        # messages of that type's byte stream (handshake: type+24-bit length framing, alert: 2 bytes,
+        # ChangeCipherSpec: 1 byte), however the stream was cut into records
+        if exc == "endless":
+            ctx.violation("c14:defrag-endless", "_getNextRecord hands out the same message again and again",
+                          dict(case, got=outs[:6]))
         if exc == "none" and nrec == len(recs):
-            want = []
+            want = {20: [], 21: [], 22: []}
             i = 0
             while i + 4 <= len(hs):
                 n = int.from_bytes(hs[i + 1:i + 4], "big")
                 if i + 4 + n > len(hs):
                     break
-                want.append("m22:" + hx(hs[i:i + 4 + n]))
+                want[22].append("m22:" + hx(hs[i:i + 4 + n]))
                 i += 4 + n
-            gothm = [o for o in outs if o.startswith("m22:")]
-            if gothm != want:
-                ctx.violation("c14:defrag-message-sequence",
-                              "handshake messages delivered by _getNextRecord differ from the messages of the byte stream",
-                              dict(case, got=gothm, want=want))
+            al = b"".join(b for t, b in recs if t == 21)
+            want[21] = ["m21:" + hx(al[j:j + 2]) for j in range(0, len(al) - 1, 2)]
+            cc = b"".join(b for t, b in recs if t == 20)
+            want[20] = ["m20:" + hx(cc[j:j + 1]) for j in range(len(cc))]
+            for t in (22, 21) + (() if tls13 else (20,)):
+                got_t = [o for o in outs if o.startswith("m%d:" % t)]
+                if got_t != want[t]:
+                    ctx.violation("c14:defrag-message-sequence",
+                                  "messages of content type %d delivered by _getNextRecord differ from the messages of the "
+                                  "byte stream" % t, dict(case, content_type=t, got=got_t, want=want[t]))
     P.flush()
 
 
@@ -782,7 +809,7 @@ def corr_asm(ctx, P):
             for o2 in ops:
                 for g2 in [0, 1, 5, "stop", "raise"]:
                     seqs.append([(o1, g1), (o2, g2), ("inRead", 0), ("setWrite", 1)])
-    for _ in range(ctx.pick(300, 3000)):
+    for _ in range(ctx.pick(500, 4000)):
         seqs.append([(rng.choice(ops), rng.choice(gens)) for _ in range(rng.randrange(1, 12))])
     for seq in seqs:
         script = []
@@ -1764,7 +1791,7 @@ def live_runs(ctx):
             round_no += 1
             if len(ctx.violations) >= 8:
                 break
-            if ctx.out_of_time(0.92) or round_no >= ctx.pick(2, 40):
+            if ctx.out_of_time(0.92) or round_no >= ctx.pick(8, 80):
                 break
     ctx.extra["live_rounds"] = round_no
     ctx.extra["live_seconds"] = round(ctx.elapsed() - t_live, 1)
